@@ -38,12 +38,13 @@ func runSecondConn(proto string, firstConn bool) (impl, pred string) {
 	}
 	var bo, be lockedBuf
 	host := plugin.NewClient(&plugin.ClientConfig{
-		HandshakeConfig: kitHandshake(),
-		Plugins:         kitHostSets(map[int]string{3: proto}, nil, nil)[3],
-		Reattach:        rc,
-		Logger:          nullLogger(),
-		SyncStdout:      &bo,
-		SyncStderr:      &be,
+		HandshakeConfig:  kitHandshake(),
+		Plugins:          kitHostSets(map[int]string{3: proto}, nil, nil)[3],
+		AllowedProtocols: []plugin.Protocol{plugin.ProtocolNetRPC, plugin.ProtocolGRPC},
+		Reattach:         rc,
+		Logger:           nullLogger(),
+		SyncStdout:       &bo,
+		SyncStderr:       &be,
 	})
 	cp, err := host.Client()
 	if err != nil {
